@@ -56,6 +56,14 @@ def coq_makefile():
 def coq_make(targets=None, timeout=3000):
     """Full .vo build (never -vos/-vok) of the given targets (default: everything)."""
     coq_makefile()
+    if not targets:
+        # a whole build (setup) recomputes the dependencies: a dependency file left behind by an interrupted
+        # build would otherwise let make start every file at once
+        for f in (".Makefile.d",):
+            try:
+                os.remove(os.path.join(COQ, f))
+            except OSError:
+                pass
     t = " ".join(targets) if targets else ""
     cmd = "timeout %d make -j%d %s" % (timeout, NPROC, t)
     rc, out = sh(cmd, cwd=COQ, timeout=timeout + 60)
